@@ -46,7 +46,9 @@ impl SelectiveAck {
     }
 
     pub fn as_bytes(&self) -> &[u8] {
-        self.data.as_raw_slice()
+        let raw = self.data.as_raw_slice();
+        // A parsed SACK shorter than 8 bytes must serialize back with its own length.
+        &raw[..(self.len / 8).min(raw.len())]
     }
 
     pub fn deserialize(bytes: &[u8]) -> Self {
